@@ -24,7 +24,7 @@ var zzC14Alpha = [][]zzHostOp{
 	},
 	{
 		{0, []string{"a1.e", "b2.e", "c3.e", "D4.e", "e5.e", "f6.e"}}, {0, []string{"{w}.e"}}, {1, []string{"C3.E"}}, {1, []string{"a1.e"}}, {1, []string{"f6.e"}},
-		{1, []string{"{w}.e"}}, {2, nil}, {0, []string{"{n:digit}.e"}},
+		{1, []string{"{w}.e"}}, {2, nil}, {0, []string{"{n:digit}.e"}}, {0, []string{"\u00dcx.e"}},
 	},
 	{ // 2: six literal domains + wildcard, then two domains sharing a first byte come and go (two-level pruning under the indexed root)
 		{1, []string{"fox.e"}}, {1, []string{"FIG.e"}}, {1, []string{"a1.e"}}, {1, []string{"{w}.e"}},
@@ -34,7 +34,7 @@ var zzC14Alpha = [][]zzHostOp{
 	},
 }
 
-var zzHostTraps = []string{"b.co:\u0668\u0660", "x.b.co:\u0661", "c.d:\uff18", "a1.e:8\u0660", "q.e:\u00b2", "api.b.co:\u0967"}
+var zzHostTraps = []string{"b.co:\u0668\u0660", "x.b.co:\u0661", "c.d:\uff18", "a1.e:8\u0660", "q.e:\u00b2", "api.b.co:\u0967", "\u00dcx.e", "\u00fcx.e:80", "\u00dcX.e"}
 
 // zzC14Setup: operations applied before the explored history.
 var zzC14Setup = [][]zzHostOp{nil, nil, {{0, []string{"a1.e", "b2.e", "c3.e", "d4.e", "e5.e", "{w}.e"}}, {0, []string{"fox.e", "fig.e"}}}, nil}
